@@ -18,6 +18,7 @@ EXPLANATION = (
     "(classification as in C12), siblings agree. R19.4 PANIC over all clap_mangen bodies reachable from its public API, and "
     "DET (no nondeterminism source). NOT decided: that every visible item is named."
     ' R19.3c: the option sections are a partition of the visible arguments (no positional narrowing such as take_while/drain in _render_options_section).'
+    " R19.A accessor layer (lib/accessors.py): for the is_*_set / get_* accessors this property's rules name — the bool builder sets and unsets one flag on the right edges and the predicate reads that same flag; builder scope (global/local) as in audit/setting_scope.tsv; no two predicates/builders share a flag; setting/unset_setting/global_setting/is_set forward to the right flag word, the flag word is |=bit / &=!bit / &bit!=0 with bit = 1<<discriminant, _propagate_subcommand hands g_settings to the child's settings and g_settings; plain field getters return their field."
 )
 TRUSTED = ["rustc MIR + expanded AST", "clapfacts", "lib/strflow.py", "roff 0.2.1 source (text escaped, control args verbatim)", "audit/panic.tsv"]
 ASSUMPTIONS = ["a carriage return alone does not start a roff control line"]
